@@ -191,17 +191,20 @@ ENABLE_POOL = ["truthy-bool", "redundant-expr", "possibly-undefined", "ignore-wi
                "explicit-override", "redundant-self", "truthy-iterable", "unimported-reveal", "mutable-override"]
 
 
+PROFILES = [(["--warn-unused-ignores"], 0.68), (["--warn-unused-ignores", "--enable-error-code", "ignore-without-code"], 0.15),
+            ([], 0.10), (["--warn-unused-ignores", "--show-error-code-links"], 0.07)]
+
+
 def _pack(r: dict) -> dict:
     rec = r["rec"]
-    main_file = rec.files.get("main.py")
+    main_file = rec.files.get(corpus.MAIN)
     return {"stdout": r["stdout"], "stderr": r["stderr"], "status": r["status"], "events": rec.events,
             "outputs": rec.outputs, "blockers": rec.blockers, "main_file": main_file,
-            "tuples": [list(t) for t in rec.raw_tuples], "unsupported": rec.unsupported,
-            "spans": {str(k): v for k, v in rec.spans.items()}}
+            "tuples": [list(t) for t in rec.raw_tuples], "unsupported": rec.unsupported}
 
 
 def _main_output(run: dict) -> list:
-    """canonical tuples of main.py's last flush"""
+    """canonical tuples of the program's last flush"""
     mf = run["main_file"]
     ms = [e for e in run["events"] if e[0] == "M"]
     for ev, out in reversed(list(zip(ms, run["outputs"]))):
@@ -212,23 +215,27 @@ def _main_output(run: dict) -> list:
 
 def program_task(args) -> dict:
     """Runs in a worker process: the base run of one program and its variants."""
-    name, src, seed, workdir, nvar = args
+    name, src, seed, workdir, nvar, cli_share = args
     import random
     rng = random.Random(seed)
-    os.makedirs(workdir, exist_ok=True)
-    cache = os.path.join(workdir, "cache")
     t = sink.table()
     res: dict = {"name": name, "src": src, "variants": []}
-    base_flags = []
-    if rng.random() < 0.8:
-        base_flags.append("--warn-unused-ignores")
-    if rng.random() < 0.25:
-        base_flags += ["--enable-error-code", "ignore-without-code"]
-    if rng.random() < 0.1:
-        base_flags.append("--show-error-code-links")
+    x, acc, prof = rng.random(), 0.0, 0
+    for i, (_f, w) in enumerate(PROFILES):
+        acc += w
+        if x < acc:
+            prof = i
+            break
+    base_flags = list(PROFILES[prof][0])
     res["flags"] = base_flags
+
+    def tool(src_, flags, inline=()):
+        # one incremental cache per set of global flags (they are part of every module's cache key)
+        key = "cache-" + re.sub(r"[^a-z0-9]+", "_", " ".join(flags))[:80]
+        return _pack(corpus.run_tool(workdir, os.path.join(workdir, key), src_, flags, inline))
+
     try:
-        base = _pack(corpus.run_tool(workdir, cache, src, base_flags))
+        base = tool(src, base_flags)
     except BaseException as e:  # noqa: BLE001 - the tool crashed on a corpus program: not this property
         res["crash"] = repr(e)[:300]
         return res
@@ -282,21 +289,27 @@ def program_task(args) -> dict:
             if src2 is None:
                 res["variants"].append({"skipped": "line cannot take a comment", "modes": modes})
                 continue
-            var = {"kind": "ignore", "annots": {str(k): v for k, v in annots.items()}, "modes": modes, "flags": base_flags, "src": src2}
+            var = {"kind": "ignore", "annots": {str(k): v for k, v in annots.items()}, "modes": modes,
+                   "flags": base_flags, "inline": [], "src": src2}
         elif kind < 0.9 and all_codes:
             c = sink.code_name(rng.choice(all_codes))
             sub = [o for _, o in t["objs"] if o.code == c and o.sub_code_of is not None]
             target = sub[0].sub_code_of.code if (sub and rng.random() < 0.4) else c
             if target not in reg:
                 continue
-            var = {"kind": "disable", "code": target, "flags": base_flags + ["--disable-error-code", target], "src": src}
+            var = {"kind": "disable", "code": target, "src": src}
         else:
             c = rng.choice(ENABLE_POOL)
-            if c not in reg or ("--enable-error-code" in base_flags and c == "ignore-without-code"):
+            if c not in reg or ("ignore-without-code" in base_flags and c == "ignore-without-code"):
                 continue
-            var = {"kind": "enable", "code": c, "flags": base_flags + ["--enable-error-code", c], "src": src}
+            var = {"kind": "enable", "code": c, "src": src}
+        if var["kind"] in ("disable", "enable"):
+            if rng.random() < cli_share:      # the command-line spelling (slow: every module's cache key changes)
+                var["flags"], var["inline"] = base_flags + ["--%s-error-code" % var["kind"], var["code"]], []
+            else:                             # the per-module spelling
+                var["flags"], var["inline"] = base_flags, ['%s-error-code="%s"' % (var["kind"], var["code"])]
         try:
-            var["run"] = _pack(corpus.run_tool(workdir, cache, var["src"], var["flags"]))
+            var["run"] = tool(var["src"], var["flags"], var["inline"])
         except BaseException as e:  # noqa: BLE001
             var["crash"] = repr(e)[:300]
         res["variants"].append(var)
@@ -328,72 +341,110 @@ def exit_lines(tuples: list[list]) -> list[list] | None:
     return ls
 
 
-def carries(tup: list, code_id_: int, objs) -> bool:
-    """Does the diagnostic carry code `code_id_` (itself or as the parent of its code)?"""
+def stored_codes(run: dict) -> dict[tuple, list]:
+    """(line, column, severity, message id) -> the `code` JSONs [name, subOf, …] of the ErrorInfos recorded there"""
+    d: dict[tuple, list] = {}
+    for ev in run["events"]:
+        if ev[0] == "A":
+            i = ev[1]
+            d.setdefault((i[2], i[3], i[6], i[7]), []).append(i[8])
+    return d
+
+
+def carries(tup: list, code_id_: int, codes_at: dict[tuple, list]) -> bool:
+    """Does the diagnostic carry code `code_id_` — itself, or as the parent (`sub_code_of`) of its code?
+    Two ErrorCode objects may share a name (CALL_ARG / CALL_ARG_MISC): the recorded object decides."""
     if tup[6] is None:
         return False
     if tup[6] == code_id_:
         return True
+    if tup[5][0] == "u":
+        recs = [c for c in codes_at.get((tup[0], tup[1], tup[4], tup[5][1]), []) if c is not None and c[0] == tup[6]]
+        if recs:
+            return any(c[1] == code_id_ for c in recs)
     name, parent = sink.code_name(tup[6]), sink.code_name(code_id_)
-    return any(o.code == name and o.sub_code_of is not None and o.sub_code_of.code == parent for _, o in objs)
+    reg = sink.table()["ec"].error_codes
+    o = reg.get(name)
+    return o is not None and o.sub_code_of is not None and o.sub_code_of.code == parent
 
 
 def key5(t: list):
     return json.dumps(t, sort_keys=True)
 
 
-def oracle_ignore_delta(base: dict, var: dict, annots: dict[int, list[str]]) -> list[str]:
+def oracle_ignore_delta(base: dict, var: dict, annots: dict[int, list[str]]) -> list[dict]:
     """The property's delta rule on outputs, independent of the model:
        * a diagnostic of P that is gone in P' was stored with an origin span that contains an annotated line
-         (and, if coded tags were given, carries a listed code or a sub-code of one) — or is a note attached to
-         (same line as) such an error;
+         (and, if coded tags were given, carries a listed code or a sub-code of one) — or is a note on the line of
+         such an error;
        * a diagnostic that is new in P' sits on an annotated line and is one of the sink's own messages about
          ignores (not covered / unused / without code);
-       * the surviving diagnostics keep their relative order."""
+       * the surviving diagnostics keep their relative order.
+    Returns problems {kind, tuple, text}."""
     out0, out1 = _main_output(base), _main_output(var["run"])
-    probs = []
+    probs: list[dict] = []
     k0 = [key5(t) for t in out0]
     k1 = [key5(t) for t in out1]
-    # stored infos of P, for spans: (line, col, sev, msgid) -> spans
+    s0, s1 = set(k0), set(k1)
     spans: dict[tuple, list[list[int]]] = {}
-    for ev in base["events"]:
-        if ev[0] == "A":
-            i = ev[1]
-            spans.setdefault((i[2], i[3], i[6], i[7]), []).append(i[11])
-    objs = sink.table()["objs"]
-    gone = [t for t, k in zip(out0, k0) if k not in set(k1)]
+    once: set[int] = set()
+    for run in (base, var["run"]):
+        for ev in run["events"]:
+            if ev[0] == "A":
+                i = ev[1]
+                if run is base:
+                    spans.setdefault((i[2], i[3], i[6], i[7]), []).append(i[11])
+                if i[10]:
+                    once.add(i[7])
+    codes_at = stored_codes(base)
+    gone = [t for t, k in zip(out0, k0) if k not in s1]
     removed_err_lines = set()
     for t in gone:
-        sp = [s for s in spans.get((t[0], t[1], t[4], t[5][1] if t[5][0] == "u" else -1), [])]
-        hit = [l for s in sp for l in s if l in annots]
-        if t[5][0] != "u":
+        if t[5][0] == "u":
+            hit = [l for sp in spans.get((t[0], t[1], t[4], t[5][1]), []) for l in sp if l in annots]
+        else:
             hit = [t[0]] if t[0] in annots else []
+        is_once = t[5][0] == "sl" or (t[5][0] == "u" and t[5][1] in once)
         if not hit:
-            probs.append("diagnostic %s disappeared but no annotated line is in its origin span" % json.dumps(t))
+            probs.append({"kind": "unrelated-removed", "tuple": t, "only_once": is_once,
+                          "text": "diagnostic %s disappeared but no annotated line is in its origin span" % json.dumps(t)})
             continue
         ok = False
         for l in hit:
             tags = annots[l]
-            if not tags or t[6] is None and t[4] == "n" or any(carries(t, sink.code_id(x), objs) for x in tags):
+            if (not tags) or (t[6] is None and t[4] == "n") or any(carries(t, sink.code_id(x), codes_at) for x in tags):
                 ok = True
         if t[4] == "e":
             if not ok:
-                probs.append("error %s was suppressed by an ignore whose codes do not match" % json.dumps(t))
+                probs.append({"kind": "wrong-code-suppressed", "tuple": t, "only_once": False,
+                              "text": "error %s was suppressed by an ignore whose codes do not match" % json.dumps(t)})
             else:
                 removed_err_lines.add(t[0])
         elif not ok and t[0] not in removed_err_lines:
-            probs.append("note %s disappeared although neither it nor an error on its line matches" % json.dumps(t))
-    new = [t for t, k in zip(out1, k1) if k not in set(k0)]
-    for t in new:
+            probs.append({"kind": "note-removed", "tuple": t, "only_once": is_once,
+                          "text": "note %s disappeared although neither it nor an error on its line matches" % json.dumps(t)})
+    for t, k in zip(out1, k1):
+        if k in s0:
+            continue
         if t[0] not in annots or t[5][0] not in ("nc", "cc", "ui", "iw"):
-            probs.append("new diagnostic %s is not a message about an added ignore" % json.dumps(t))
-    s1 = set(k1)
+            is_once = t[4] == "n" and (t[5][0] == "sl" or (t[5][0] == "u" and t[5][1] in once))
+            probs.append({"kind": "new-diagnostic", "tuple": t, "only_once": is_once,
+                          "text": "new diagnostic %s is not a message about an added ignore" % json.dumps(t)})
     kept0 = [k for k in k0 if k in s1]
-    s0 = set(k0)
     kept1 = [k for k in k1 if k in s0]
     if not probs and kept0 != kept1 and sorted(kept0) == sorted(kept1):
-        probs.append("surviving diagnostics changed their order")
+        probs.append({"kind": "order-changed", "tuple": None, "only_once": False, "text": "surviving diagnostics changed their order"})
     return probs
+
+
+def classify_delta(probs: list[dict]) -> str:
+    """`only-once-note-moved`: every difference is an only_once note (reported with only_once=True — observed in
+    the recorded stream — or the sink's own `See …#code-X` link note) that now shows up at the next place it is
+    reported because the diagnostic it used to follow is ignored."""
+    if all(p["only_once"] and p["kind"] in ("new-diagnostic", "note-removed", "unrelated-removed") and p["tuple"][4] == "n" for p in probs) \
+            and any(p["kind"] == "new-diagnostic" for p in probs):
+        return "only-once-note-moved"
+    return probs[0]["kind"]
 
 
 def real_runs(ctx: Ctx) -> None:
@@ -406,7 +457,7 @@ def real_runs(ctx: Ctx) -> None:
     nproc = 6
     tasks = []
     for i, (name, src) in enumerate(progs):
-        tasks.append((name, src, ctx.rng.getrandbits(48), os.path.join(ctx.tmp, "w%d" % (i % nproc)), nvar))
+        tasks.append((name, src, ctx.rng.getrandbits(48), os.path.join(ctx.tmp, "w%d" % (i % nproc)), nvar, ctx.pick(0.04, 0.15)))
     # one worker per scratch directory (its own incremental cache): chunk by directory
     chunks = [[t for t in tasks if t[3].endswith("w%d" % k)] for k in range(nproc)]
     with ProcessPoolExecutor(max_workers=nproc, mp_context=multiprocessing.get_context("fork")) as ex:
@@ -422,7 +473,6 @@ def _run_chunk(chunk):
 
 
 def judge_runs(ctx: Ctx, results: list[dict]) -> None:
-    objs = sink.table()["objs"]
     # ---- driver batch: replay of every run, expectation for every variant, exit model for every run
     lines: list[str] = []
     index: list[tuple] = []
@@ -444,7 +494,8 @@ def judge_runs(ctx: Ctx, results: list[dict]) -> None:
                 ann = {int(k): [sink.code_id(x) for x in tags] for k, tags in v["annots"].items()}
                 evs = corpus.transform_events(r["base"]["events"], r["base"]["main_file"], ann, [])
             elif v["kind"] == "disable":
-                evs = corpus.transform_events(r["base"]["events"], r["base"]["main_file"], {}, [sink.code_id(v["code"])])
+                evs = corpus.transform_events(r["base"]["events"], r["base"]["main_file"], {}, [sink.code_id(v["code"])],
+                                              inline=bool(v["inline"]))
             else:
                 continue
             lines.append(json.dumps(["stream"] + evs))
@@ -474,7 +525,8 @@ def judge_runs(ctx: Ctx, results: list[dict]) -> None:
             ctx.dist("program_runs", "unsupported option (not judged)")
             continue
         runs = [("base", None, base, r["src"], r["flags"])] + \
-               [("var", vi, v["run"], v["src"], v["flags"]) for vi, v in enumerate(r["variants"]) if "run" in v]
+               [("var", vi, v["run"], v["src"] + "".join("\n# mypy: " + i for i in v["inline"]), v["flags"])
+                for vi, v in enumerate(r["variants"]) if "run" in v]
         replay_ok: dict = {}
         for tag, vi, run, src, flags in runs:
             # -------- tie (c): recorded stream through the model = the build's file_messages
@@ -537,9 +589,9 @@ def judge_runs(ctx: Ctx, results: list[dict]) -> None:
                 ctx.case(("meta", r["name"], v["annots"]))
                 if probs:
                     ctx.report({"class": "ignore-not-exact", "detail": classify_delta(probs)},
-                               "adding `# type: ignore` changed the output of %s by more/less than the matching diagnostics: %s" % (r["name"], probs[0]),
+                               "adding `# type: ignore` changed the output of %s by more/less than the matching diagnostics: %s" % (r["name"], probs[0]["text"]),
                                {"kind": "metamorphic", "name": r["name"], "src": r["src"], "flags": r["flags"], "annots": v["annots"],
-                                "problems": probs[:6], "before": out0, "after": out1})
+                                "problems": [p["text"] for p in probs[:6]], "before": out0, "after": out1})
                 elif exp_main != out1:
                     nbad_exp += 1
                     ctx.count("disagreements_checked")
@@ -555,7 +607,8 @@ def judge_runs(ctx: Ctx, results: list[dict]) -> None:
             elif v["kind"] == "disable":
                 ctx.dist("variant", "disable")
                 cid = sink.code_id(v["code"])
-                want = [t for t in out0 if not carries(t, cid, objs)]
+                codes_at = stored_codes(base)
+                want = [t for t in out0 if not carries(t, cid, codes_at)]
                 ctx.case(("meta-disable", r["name"], v["code"]))
                 nexp += 1
                 if out1 != want:
@@ -564,7 +617,7 @@ def judge_runs(ctx: Ctx, results: list[dict]) -> None:
                     ctx.report({"class": "disable-not-exact", "code": v["code"]},
                                "--disable-error-code %s changed other diagnostics of %s (extra %s, missing %s)" % (v["code"], r["name"], json.dumps(extra[:2]), json.dumps(missing[:2])),
                                {"kind": "metamorphic", "name": r["name"], "src": r["src"], "flags": v["flags"], "base_flags": r["flags"],
-                                "before": out0, "after": out1})
+                                "inline": v["inline"], "before": out0, "after": out1})
                 else:
                     exp = [sink.canon_model_obs(o) for o in model[("expect", ri, vi)]]
                     if _last_main(exp, base) != out1 and not (replay_ok.get(None) and replay_ok.get(vi)):
@@ -573,14 +626,14 @@ def judge_runs(ctx: Ctx, results: list[dict]) -> None:
             else:
                 ctx.dist("variant", "enable")
                 cid = sink.code_id(v["code"])
-                rest = [t for t in out1 if not carries(t, cid, objs)]
+                rest = [t for t in out1 if not carries(t, cid, stored_codes(run))]
                 ctx.case(("meta-enable", r["name"], v["code"]))
                 nexp += 1
-                if rest != [t for t in out0 if not carries(t, cid, objs)]:
+                if rest != [t for t in out0 if not carries(t, cid, stored_codes(base))]:
                     ctx.report({"class": "enable-not-exact", "code": v["code"]},
                                "--enable-error-code %s changed diagnostics of %s that do not carry that code" % (v["code"], r["name"]),
                                {"kind": "metamorphic", "name": r["name"], "src": r["src"], "flags": v["flags"], "base_flags": r["flags"],
-                                "before": out0, "after": out1})
+                                "inline": v["inline"], "before": out0, "after": out1})
     ctx.coverage["recorded_runs_replayed"] = nrep
     ctx.coverage["recorded_replay_disagreements"] = nbad_rep
     ctx.coverage["metamorphic_variants_judged"] = nexp
@@ -598,19 +651,6 @@ def _last_main(obs: list, base: dict) -> list:
         if ev[1] == base["main_file"]:
             return o[1]
     return []
-
-
-def classify_delta(probs: list[str]) -> str:
-    p = probs[0]
-    if p.startswith("new diagnostic"):
-        return "new-diagnostic"
-    if "disappeared but no annotated" in p:
-        return "unrelated-diagnostic-removed"
-    if "do not match" in p:
-        return "wrong-code-suppressed"
-    if "order" in p:
-        return "order-changed"
-    return "note-removed"
 
 
 def judge_exit(ctx: Ctx, r: dict, run: dict, src: str, flags: list[str], m: list | None) -> None:
@@ -695,21 +735,21 @@ def replay(ctx: Ctx, path: str) -> int:
         return 0
     if kind in ("program", "metamorphic"):
         work = os.path.join(ctx.tmp, "w")
-        os.makedirs(work, exist_ok=True)
         flags = det.get("base_flags", det.get("flags", []))
-        r0 = corpus.run_tool(work, os.path.join(work, "cache"), det["src"], flags)
-        print("$ mypy %s main.py   -> exit %d" % (" ".join(flags), r0["status"]))
-        print(r0["stdout"] + r0["stderr"])
+
+        def show(src, fl, inline=()):
+            r = corpus.run_tool(work, os.path.join(work, "cache"), src, fl, inline)
+            print("$ mypy %s -c PROGRAM%s   -> exit %d" % (" ".join(fl), "".join("  +`# mypy: %s`" % i for i in inline), r["status"]))
+            print(r["stdout"] + r["stderr"])
+        print("PROGRAM:\n" + det["src"])
+        show(det["src"], flags)
         if kind == "metamorphic":
             if "annots" in det:
-                src2 = corpus.add_ignores(det["src"], {int(k): v for k, v in det["annots"].items()})
-                f2 = flags
+                print("--- with `# type: ignore[...]` added on lines %s" % json.dumps(det["annots"]))
+                show(corpus.add_ignores(det["src"], {int(k): v for k, v in det["annots"].items()}), flags)
             else:
-                src2, f2 = det["src"], det["flags"]
-            r1 = corpus.run_tool(work, os.path.join(work, "cache"), src2, f2)
-            print("--- after %s" % (json.dumps(det.get("annots")) if "annots" in det else " ".join(f2)))
-            print("$ mypy %s main.py   -> exit %d" % (" ".join(f2), r1["status"]))
-            print(r1["stdout"] + r1["stderr"])
+                print("--- with the code switched")
+                show(det["src"], det["flags"], det.get("inline", []))
         return 0
     print(json.dumps(det, indent=1)[:4000])
     return 0
